@@ -84,6 +84,8 @@ pub fn sigma() -> Vec<Op> {
         Op::Entry(s("/d/f")),                      // 53
         Op::MoveP(s("/e"), s("/d/f")),             // 54 (replaces the file by one with another owner and mode)
         Op::Uid(s("/d/f")),                        // 55
+        // a relative cwd change: its argument must be resolved against the cwd the call replaces
+        Op::SetCwd(s("../e")),                     // 56
     ]
 }
 
@@ -409,7 +411,7 @@ struct Family {
 fn families(tier: Tier) -> Vec<Family> {
     let all: Vec<usize> = (0..sigma().len()).collect();
     let atomic: Vec<usize> = (0..N_ATOMIC).collect();
-    let relcore: Vec<usize> = vec![38, 39, 40, 41, 42, 43, 44];
+    let relcore: Vec<usize> = vec![38, 39, 40, 41, 42, 43, 44, 56];
     let core10: Vec<usize> = vec![0, 2, 4, 5, 6, 7, 8, 9, 10, 28];
     let core6: Vec<usize> = vec![0, 2, 6, 7, 8, 28];
     let core5: Vec<usize> = vec![0, 2, 4, 8, 9];
